@@ -20,6 +20,10 @@
 //   (range d vX lo hi) is  `-= vX ; += {lo <= vX, vX <= hi}`
 //   <lin> ::= (lin c (k vI) ...) ; <cst> ::= (le <lin>) | (lt <lin>) | (eq <lin>) | (ne <lin>)   lin ⋈ 0
 // result  : one item per op:  (s d <isbot> (iv <itv per integer variable>) (cs <cst>...))
+//           with -DXDUMP (array_smashing variants only, optional, for the exact correspondence of
+//           Driver/ArrXH.lean) each (s ...) item is followed by  (x d <itv a0.smashed> <itv a1.smashed>)
+//           : at() of the summary variable of each array in the base domain.  Without -DXDUMP the
+//           output is unchanged.
 //
 // Word-level assumption (array_smashing.hpp:4, array_adaptive.hpp): every access to array aK reads
 // or writes esz_K bytes at an offset that is a multiple of esz_K.
@@ -227,6 +231,15 @@ std::string eval(const Sx &q) {
       pool[d].array_assign(arr(A(op[2])), arr(A(op[3])));
     }
     out << "(s " << d << " " << dump(pool[d]) << ") ";
+#if defined(XDUMP) && !defined(ADAPTIVE)
+    // the summary variable of aK: the name array_smashing::mk_scalar_var builds (the factory caches it)
+    out << "(x " << d;
+    for (unsigned a = 0; a < NA; a++) {
+      z_var sv(vf.get(arr(a).name(), ".smashed"), crab::INT_TYPE, 8 * esz[a]);
+      out << " " << ivs(pool[d].at(sv));
+    }
+    out << ") ";
+#endif
   }
   return out.str();
 }
